@@ -1,14 +1,16 @@
 import RsMatterVerif.Model.Subs
 import Driver.Util
+import Driver.C13Sys
 /-! Driver for C13: replays subscription-table histories on `Model/Subs` (output compared with the
 real `Subscriptions` table, field by field) and evaluates the property's specification on the
 *implementation's* outputs: a set-based account of what every live subscriber is still owed.
 
 Ops (`now` in ticks, `hz` ticks per second in the case header `case <id> subs <N> <hz>`):
   `chg e c a` | `chgw e|* c|*` | `add now fab peer min max evwm` | `rep now evwm` | `q id` |
-  `fin id keep|retry|drop` | `purge` | `rm fab peer` | `rmexp now` | `nra evwm`
+  `fin id keep|retry|drop|unsent` | `purge` | `rm fab peer` | `rmexp now` | `nra evwm` | `persist` |
+  `restart now evwm`
 Output of every op: `<result> | <nextSubId> <count> <nextChangeId> <cancelled> | <reporting> |
-<table> | <entries> | <contexts>`.
+<table> | <entries> | <contexts> | <persisted records>`.
 -/
 namespace Driver.C13
 open Subs
@@ -16,7 +18,7 @@ open Subs
 /-! ## rendering of the model state (must equal the harness' dump of the real state) -/
 
 def rSub (s : Sub) : String :=
-  s!"{s.id},{s.fab},{s.peer},{s.minInt},{s.maxInt},{s.reportedAt},{s.retryAt},{s.fail},{s.seenAttr},{s.seenEv}"
+  s!"{s.id},{s.fab},{s.peer},{s.minInt},{s.maxInt},{s.reportedAt},{s.retryAt},{s.fail},{s.seenAttr},{s.seenEv},{s.resumedAt}"
 
 def rEntry (e : Entry) : String := s!"{e.ep}.{e.cl}.{e.attr}@{e.id}"
 
@@ -31,10 +33,14 @@ def insertSorted (c : Ctx) : List Ctx → List Ctx
 
 def sortCtxs (cs : List Ctx) : List Ctx := cs.foldl (fun acc c => insertSorted c acc) []
 
+def rRec (r : Rec) : String :=
+  s!"{r.fab},{r.peer},{r.minInt},{r.maxInt},{match r.id with | some j => toString j | none => "?"}"
+
 def rState (s : State) : String :=
   let rep := match s.reporting with | some x => rSub x | none => "-"
   s!"{s.nextSubId} {s.count} {s.changed.nextId} {if s.cancelled then 1 else 0} | {rep} | " ++
-  s!"{joinOr (s.subs.map rSub)} | {joinOr (s.changed.entries.map rEntry)} | {joinOr ((sortCtxs s.ctxs).map rCtx)}"
+  s!"{joinOr (s.subs.map rSub)} | {joinOr (s.changed.entries.map rEntry)} | {joinOr ((sortCtxs s.ctxs).map rCtx)} | " ++
+  s!"{joinOr (s.kv.map rRec)}"
 
 /-- the probed probes of concrete attribute paths, endpoint-major -/
 def probes : List (Nat × Nat × Nat) :=
@@ -62,6 +68,8 @@ structure OSub where
   afterBegin : List Entry := []
   /-- begin instant of the last delivered report -/
   lastSuccess : Option Nat := none
+  /-- resumed from a persisted record at this instant (its last success is not later than that) -/
+  resumedAt : Option Nat := none
   ackedEv : Nat := 0
   flight : Option Flight := none
   /-- a removal matched it while it was being reported on: it ends when the report ends -/
@@ -71,13 +79,25 @@ structure OSub where
 
 structure ISub where
   id : Nat
+  fab : Nat := 0
+  peer : Nat := 0
+  minInt : Nat := 0
+  maxInt : Nat := 0
   reportedAt : Nat
   retryAt : Nat
+
+/-- the number of boots the harness provides tables for -/
+def maxBoots : Nat := 4
 
 structure St where
   m : State := State.new 1000000 1
   o : List OSub := []
+  /-- the records the implementation showed in its store after the last op (`fab,peer,min,max,id`) -/
+  okv : List String := []
+  boots : Nat := 1
   dead : Bool := false
+  /-- `some` while a system-level case (header kind `sys`) is being judged by `Driver.C13Sys` -/
+  sys : Option Driver.C13Sys.St := none
 
 def pathEntry (u : Nat × Nat × Nat) : Entry := { ep := u.1, cl := u.2.1, attr := u.2.2, id := 0 }
 
@@ -86,7 +106,8 @@ def parseISubs (sec : String) : List ISub :=
   if sec = "-" then [] else
   (sec.splitOn ";").filterMap fun item =>
     match (item.splitOn ",").map String.toNat? with
-    | [some id, _, _, _, _, some ra, some rt, _, _, _] => some { id := id, reportedAt := ra, retryAt := rt }
+    | [some id, some fab, some peer, some mn, some mx, some ra, some rt, _, _, _, _] =>
+      some { id := id, fab := fab, peer := peer, minInt := mn, maxInt := mx, reportedAt := ra, retryAt := rt }
     | _ => none
 
 def sections (out : String) : List String := (out.splitOn " | ").map (fun s => s.trimAscii.toString)
@@ -114,12 +135,39 @@ def firstSome : List (Option String) → Option String
   | none :: r => firstSome r
 
 /-- Oracle for one op given the implementation's output. Returns the new oracle state and a violation. -/
-def oracle (hz : Nat) (os : List OSub) (ws : List String) (out : String) : List OSub × Option String :=
+def oracle (hz n : Nat) (okv : List String) (os : List OSub) (ws : List String) (out : String) :
+    List OSub × Option String :=
   let secs := sections out
   let res := words (secs.getD 0 "")
   let itab := parseISubs (secs.getD 3 "-")
+  let ikv := let k := secs.getD 6 "-"; if k = "-" then [] else k.splitOn ";"
   let find (id : Nat) := os.find? (fun o => o.id = id)
   match ws with
+  | ["persist"] =>
+    -- what persistence is for: every settled live subscription has a record in the store (a
+    -- subscription that is being primed / reported on is not demanded)
+    let missing := os.find? fun o =>
+      o.flight.isNone && !o.unknown && !(ikv.contains s!"{o.fab},{o.peer},{o.minInt},{o.maxInt},{o.id}")
+    match res, missing with
+    | ["ok"], some o => (os, some s!"live subscription {o.id} has no persisted record")
+    | _, _ => (os, checkPresent os itab)
+  | ["restart", now, ev] =>
+    match res with
+    | ["ok"] =>
+      -- every subscription of the old boot has ended; the records that were in the store (the first
+      -- N, in slot order) are resumed, not primed: each is owed everything
+      let want := okv.take n
+      -- … under the ids their subscribers know them by
+      let got := itab.map fun i => s!"{i.fab},{i.peer},{i.minInt},{i.maxInt},{i.id}"
+      let everything : Entry := { ep := WEP, cl := WCL, attr := WAT, id := 0 }
+      let os' : List OSub := itab.map fun i =>
+        { id := i.id, fab := i.fab, peer := i.peer, minInt := i.minInt, maxInt := i.maxInt,
+          owed := [everything], ackedEv := (ev.toNat?).getD 0, resumedAt := now.toNat? }
+      if got ≠ want then (os', some s!"the persisted subscriptions {want} are not the resumed ones {got}")
+      else match itab.find? (fun i => i.reportedAt ≠ IMAX) with
+        | some i => (os', some s!"resumed subscription {i.id} counts as primed: its next report will not carry everything")
+        | none => (os', none)
+    | _ => (os, none)
   | ["chg", e, c, a] =>
     match e.toNat?, c.toNat?, a.toNat? with
     | some e, some c, some a =>
@@ -204,6 +252,11 @@ def oracle (hz : Nat) (os : List OSub) (ws : List String) (out : String) : List 
             if mode = "drop" || o.mustEnd then os.filter (fun x => x.id ≠ id)
             else if mode = "keep" then
               updateO os id fun o => { o with owed := o.afterBegin, afterBegin := [], lastSuccess := some fl.now, ackedEv := fl.evwm, flight := none }
+            else if mode = "unsent" then
+              -- the report was empty and not sent: nothing of what was pending concerns the subscriber
+              -- (asserted by the caller); this is not a delivered report
+              updateO os id fun o => { o with owed := if fl.priming || o.lastSuccess.isNone then o.owed else o.afterBegin,
+                                              afterBegin := [], ackedEv := fl.evwm, flight := none }
             else updateO os id fun o => { o with afterBegin := [], flight := none }
           let gone := if (mode = "drop" || o.mustEnd) && itab.any (fun i => i.id = id) then some s!"ended subscription {id} is back in the table" else none
           (os', firstSome [gone, checkPresent os' itab])
@@ -229,9 +282,11 @@ def oracle (hz : Nat) (os : List OSub) (ws : List String) (out : String) : List 
     match now.toNat? with
     | none => (os, none)
     | some now =>
-      let expired (o : OSub) : Bool := match o.lastSuccess with
-        | some t => decide (t + o.maxInt * hz ≤ IMAX) && decide (t + o.maxInt * hz ≤ now)
-        | none => false
+      -- the last success of a resumed subscription is not later than the restart
+      let expired (o : OSub) : Bool := match o.lastSuccess, o.resumedAt with
+        | some t, _ => decide (t + o.maxInt * hz ≤ IMAX) && decide (t + o.maxInt * hz ≤ now)
+        | none, some t => decide (t + o.maxInt * hz ≤ IMAX) && decide (t + o.maxInt * hz ≤ now)
+        | none, none => false
       let os1 := os.filter fun o => !(expired o && o.flight.isNone)
       let os2 := os1.map fun o =>
         if expired o then
@@ -241,7 +296,11 @@ def oracle (hz : Nat) (os : List OSub) (ws : List String) (out : String) : List 
         else o
       let still := os.find? fun o => expired o && o.flight.isNone && !o.unknown && itab.any (fun i => i.id = o.id)
       match still with
-      | some o => (os2, some s!"subscription {o.id} is still alive at {now}, more than one maximum interval after its last delivered report")
+      | some o =>
+        if o.lastSuccess.isNone then
+          (os2, some s!"resumed subscription {o.id} is still alive at {now}, more than one maximum interval after the restart at {o.resumedAt.getD 0} without a delivered report")
+        else
+          (os2, some s!"subscription {o.id} is still alive at {now}, more than one maximum interval after its last delivered report")
       | none => (os2, checkPresent os2 itab)
   | ["nra", ev] =>
     match ev.toNat?, res with
@@ -301,7 +360,8 @@ def modelStep (m : State) (ws : List String) : Option (State × String) :=
     match ids.toNat? with
     | none => none
     | some id =>
-      let f := if mode = "keep" then Fin.keep else if mode = "retry" then Fin.retry else Fin.drop
+      let f := if mode = "keep" then Fin.keep else if mode = "retry" then Fin.retry
+               else if mode = "unsent" then Fin.unsent else Fin.drop
       let r := m.fin id f
       some (r.1, if r.2 then "done" else "noctx")
   | ["purge"] => some (m.purge, "-")
@@ -321,24 +381,38 @@ def modelStep (m : State) (ws : List String) : Option (State × String) :=
     match ev.toNat? with
     | some ev => some (m, toString (m.nextReportAt ev))
     | none => none
+  | ["persist"] => some (m.persist, "ok")
+  | ["restart", now, ev] =>
+    match now.toNat?, ev.toNat? with
+    | some now, some ev => some (m.restart now ev, "ok")
+    | _, _ => none
   | _ => none
 
 def step (st : St) (line : String) : St × String :=
   let (op, out) := splitArrow line
   match words op with
+  | "case" :: _ :: "sys" :: hdr => ({ sys := some (Driver.C13Sys.initSt hdr) }, "case")
   | "case" :: _ :: _ :: ns :: hzs :: _ =>
     match ns.toNat?, hzs.toNat? with
     | some n, some hz => ({ m := State.new hz n }, "case")
     | _, _ => ({}, "BAD case header")
   | ws =>
+    if let some s := st.sys then
+      let (s', v) := Driver.C13Sys.step s ws out
+      ({ st with sys := some s' }, v)
+    else
     if st.dead then (st, "ok") else
     if (words out).head? = some "panic" then ({ st with dead := true }, "ORA the implementation panicked") else
-    match modelStep st.m ws with
+    -- the harness has tables for `maxBoots` boots only
+    let refused := ws.head? = some "restart" && decide (st.boots ≥ maxBoots)
+    match (if refused then some (st.m, "norestart") else modelStep st.m ws) with
     | none => (st, "BAD op")
     | some (m', mres) =>
       let mout := s!"{mres} | {rState m'}"
-      let (o', viol) := oracle st.m.hz st.o ws out
-      let st' := { st with m := m', o := o' }
+      let (o', viol) := if refused then (st.o, none) else oracle st.m.hz st.m.n st.okv st.o ws out
+      let kvSec := (sections out).getD 6 "-"
+      let st' := { st with m := m', o := o', okv := if kvSec = "-" then [] else kvSec.splitOn ";",
+                           boots := if ws.head? = some "restart" && !refused then st.boots + 1 else st.boots }
       match viol with
       | some why => (st', s!"ORA {why}")
       | none => if mout = out then (st', "ok") else (st', s!"DIS {mout}")
